@@ -29,8 +29,17 @@ LEVEL_TEXT = ('Coq theorems over an executable Gallina model of isValidArgument/
               'BYTES of UTF-8 for every line, multi-byte text included (full statement since the repair of C06.F19; a line with a lone surrogate now fails inside the firewalled takeMsg and is dropped, which closed C06.F22), the msg= constructor branch is proved unchecked '
               '(witness) and its call sites are pinned by a regenerated inventory.  Tie: regenerated tables (forbidden characters, truncation constants, reply '
               'literals, maker shapes, isprintable ranges, msg= site inventory) + differential run of the extracted model + live exploration of all plugin commands.')
-LEVEL_NOTE = ('Trusted: Coq kernel, gen_tables.py, extraction + driver, harness.  Plugin-built messages (own IrcMsg/maker calls) and plugin outFilters are '
-              'covered by the constructor theorem, the inventory and the live exploration only (partial, stated).  Python -O (asserts off) is outside the model.')
+LEVEL_NOTE = ('Trusted: Coq kernel, gen_tables.py, extraction + driver, harness.  Plugin-built messages (own IrcMsg/maker calls) and plugin outFilters other than '
+              'Filter.outFilter are covered by the constructor theorem, the inventories and the live exploration only (partial, stated).  NOT modelled / left open: '
+              '(1) the keyword constructor checks args only -- line-safe prefix, command and tag keys are hypotheses of C06_ctor_line, discharged by the regenerated '
+              'site inventory C06_ctor_sites, not by the code; (2) tag VALUES: escaping removes CR/LF but not NUL, so a server-supplied msgid with NUL reaches the line '
+              '(finding C06.F47, refuted theorem); the tag section itself has no length bound (_truncateMsg: "TODO: truncate tags"); (3) IrcMsg.__str__ is modelled without '
+              'its _str cache: a message parsed from a raw line (Owner.ircquote, Debug.sendquote: owner only) is sent as typed, LF-terminated, outside the quantifier; (4) CTCP/ACTION '
+              'recognition in Filter.outFilter is modelled for the canonical form only; (5) the messages of event handlers (CTCP replies, JOIN/NICK/KICK/INVITE/numerics, SedRegex/'
+              'MessageParser/Karma triggers) and of channel-operator commands with the bot opped are explored live, not modelled; (6) the live bot has ONE network, ONE '
+              'channel, three callers, default registry except the rotated reply.* values, commands.process forks as in production (in-process only in the SedRegex/trigger section), no network, no '
+              'subprocess; owner-only configuration (most `config` variables) is set only where a section says so; (7) strictRfc asserts, Python -O, drivers other than '
+              'Socket, and safeArgument on non-str input are outside the model.')
 TECHNIQUE = 'Coq proof (induction over strings / invariant over the filter chain) + regenerated tables and inventory + extracted-model differential correspondence + live-bot exploration'
 EXPLANATION = 'C06: model of the reply/constructor/truncate pipeline; theorems in coq/C06/Props.v'
 
@@ -83,6 +92,8 @@ def bot():
     irc = irclib.Irc('test')
     irc.driver = _Driver()
     B = _BOT
+    # scripts/supybot sets this attribute at start-up; without it every commands.process user (regexp commands, SedRegex, Math) dies with AttributeError
+    world.disableMultiprocessing = False      # production default: a forked child with a timeout
     B.update(irc=irc, conf=conf, ircmsgs=ircmsgs, ircdb=ircdb, ircutils=ircutils, callbacks=callbacks, irclib=irclib, world=world)
     _drain(B)
     names = sorted(n for n in os.listdir(os.path.join(boot.REPO, 'plugins'))
@@ -275,6 +286,7 @@ def heal(B):
     irc.zombie = False
     irc.state.capabilities_ack.discard('labeled-response')
     irc.state.capabilities_ack.discard('echo-message')
+    irc.state.capabilities_ack.discard('message-tags')
 
 
 def live_feed(B, inv):
@@ -540,6 +552,101 @@ def live_extra(ctx, B):
     restore_registry(B)
 
 
+def run_steps(B, steps):
+    """steps: ['raw', line] a line from the server | ['cmd', caller, text, where] a command | ['conf', name, value] owner-side configuration.
+    returns the messages the driver would get for the LAST step"""
+    irc, ircmsgs = B['irc'], B['ircmsgs']
+    outs = []
+    for st in steps:
+        if st[0] == 'conf':
+            _setv(B['conf'], st[1], st[2])
+            B.setdefault('dirty_conf', True)
+            continue
+        if st[0] == 'cmd':
+            outs = live_feed(B, {'caller': st[1], 'where': st[3] if len(st) > 3 else 'chan', 'text': st[2], 'conf': {}})
+            continue
+        try:
+            m = ircmsgs.IrcMsg(st[1])
+        except Exception:
+            outs = []
+            continue
+        B['deny_exec'] = True
+        try:
+            irc.feedMsg(m)
+        except Exception:
+            pass
+        _wait_threads()
+        B['deny_exec'] = False
+        outs = _drain(B)
+    return outs
+
+
+OP_BOT = [['raw', ':test!bot@bothost JOIN #test'], ['raw', ':server 353 test = #test :@test @alice bob'], ['raw', ':server 366 test #test :End of names'],
+          ['raw', ':server MODE #test +o test']]
+EV_TEXT = ['a\rQUIT :x', 'a\0b', '\u00e9' * 600, '\u65e5\u672c\u8a9e' * 200, 'A' * 900, '\x01', 'x\x01y', '\U0001f600' * 300, 'a b c', ':colon', '', '\\n', '"a\\nb"']
+
+
+def live_events(ctx, B):
+    """what reaches the bot WITHOUT being a command: CTCP requests, server PING/numerics, JOIN/NICK/TOPIC/KICK/INVITE/MODE/PART/QUIT events,
+    channel text that triggers SedRegex / MessageParser / Karma / snarfers; and channel-operator commands while the bot IS opped"""
+    rng = ctx.rng
+    seen = {}
+
+    def go(kind, pre, last):
+        steps = pre + [last]
+        ctx.case('live-' + kind, {'op': 'steps', 'steps': [last]})
+        for m in run_steps(B, [last]):
+            for clause, detail in check_out(m):
+                k = (kind, clause)
+                seen[k] = seen.get(k, 0) + 1
+                if seen[k] <= 2:
+                    ctx.fail({'op': 'steps', 'clause': clause, 'steps': steps}, '%s: %s' % (clause, detail))
+    heal(B)
+    restore_registry(B)
+    pre = list(OP_BOT)
+    run_steps(B, pre)
+    texts = EV_TEXT if ctx.scale > 1 else EV_TEXT[:9] + rng.sample(EV_TEXT[9:], 2)
+    for h in texts:
+        u = h.replace(' ', '_')
+        for c in ('PING', 'VERSION', 'TIME', 'FINGER', 'USERINFO', 'CLIENTINFO', 'SOURCE', 'ERRMSG', 'DCC CHAT', 'FOO'):
+            go('ctcp', pre, ['raw', ':bob!u@h PRIVMSG %s :\x01%s %s\x01' % (rng.choice(['test', '#test']), c, h)])
+        for line in ('PING :' + h, ':server 433 * test :' + h, ':server 437 * test :' + h, ':server 432 * ' + (u[:20] or 'x') + ' :' + h,
+                     ':server 471 test #other :' + h, ':server ERROR :' + h, ':alice!a@ahost INVITE test :#inv' + u[:40], ':bob!u@h INVITE test :#inv' + u[:40],
+                     ':carol' + u[:8] + '!u@h JOIN #test', ':bob!u@h NICK :' + (u[:30] or 'x'), ':' + (u[:30] or 'x') + '!u@h NICK bob',
+                     ':bob!u@h TOPIC #test :' + h, ':bob!u@h PART #test :' + h, ':bob!u@h JOIN #test', ':bob!u@h QUIT :' + h, ':bob!u@h JOIN #test',
+                     ':server MODE #test +b ' + u[:60] + '!*@*', ':bob!u@h KICK #test test :' + h):
+            go('event', pre, ['raw', line])
+        run_steps(B, OP_BOT)
+    # channel text that is not a command
+    trig = [['conf', 'supybot.plugins.SedRegex.enable', True], ['cmd', 'alice', 'messageparser add "trig (.*)" "echo $1"'],
+            ['cmd', 'alice', 'messageparser add "act (.*)" "reply action $1"']]
+    B['world'].disableMultiprocessing = True      # as `supybot --disable-multiprocessing`: the SedRegex substitution runs in-process
+    run_steps(B, trig)
+    pre2 = pre + trig
+    for rep in ['\\n', '\\r\\nQUIT', '\\0', '\\g<0>' * 300, '\u00e9' * 500, '&' * 400, '\\t']:
+        said = ['raw', ':bob!u@h PRIVMSG #test :hello world aaa \x01 \u00e9']
+        run_steps(B, [said])
+        go('trigger', pre2 + [said], ['raw', ':bob!u@h PRIVMSG #test :s/a/%s/g' % rep])
+    for h in texts:
+        for line in (':bob!u@h PRIVMSG #test :trig ' + h, ':bob!u@h PRIVMSG #test :act ' + h, ':bob!u@h PRIVMSG #test :' + h + '++',
+                     ':bob!u@h PRIVMSG #test :http://example.org/' + h.replace(' ', '_'), ':bob!u@h PRIVMSG #test :test: ' + h, ':bob!u@h PRIVMSG test :' + h):
+            go('trigger', pre2, ['raw', line])
+    B['world'].disableMultiprocessing = False
+    restore_registry(B)
+    # channel-operator commands with the bot opped (otherwise they stop at "I need to be opped")
+    opcmds = ['channel kick bob ', 'channel kick bob,alice ', 'channel kban bob ', 'channel iban bob ', 'channel ban add ', 'channel mode ', 'channel mode +k ',
+              'channel key ', 'channel limit ', 'channel invite ', 'channel op ', 'channel voice ', 'channel unban ', 'channel cycle ', 'topic add ', 'topic set ',
+              'topic replace 1 ', 'topic insert ', 'topic separator ', 'topic fit ', 'channel alert ', 'admin nick ', 'channel part ']
+    for a in ['"a\\nQUIT :x"', '"\\0"', 'a\rb', '\u00e9' * 400, '\u65e5\u672c\u8a9e' * 200, 'x' * 600, '\x01', ':x', '[string chr 10]QUIT', '"\\ud800"']:
+        for c in (opcmds if ctx.scale > 1 else rng.sample(opcmds, 12)):
+            go('opped-command', pre, ['cmd', 'alice', c + a])
+            if '#test' not in B['irc'].state.channels or 'test' not in B['irc'].state.channels['#test'].ops or B['irc'].nick != 'test':
+                heal(B)
+                run_steps(B, OP_BOT)
+    heal(B)
+    restore_registry(B)
+
+
 def live_outfilter_each(ctx, B):
     """every command of the Filter plugin is offered to `outfilter` by a channel op; those it accepts run as live output filters
     on texts that spell CR LF / NUL in binary, hex, morse, ... (decoders!) and on hostile text"""
@@ -598,6 +705,8 @@ def worker_main(argv):
         live_extra(w, B)
     if i == 0:
         live_outfilter_each(w, B)
+    if i == 1 % n:
+        live_events(w, B)
     sys.stdout.write('\nRESULT ' + json.dumps({'dist': dict(w.dist), 'hashes': sorted(w.hashes), 'samples': w.samples[:3], 'failures': w.failures,
                                                'notes': w.notes, 'stats': st, 'plugins': mine}) + '\n')
     sys.stdout.flush()
@@ -740,7 +849,7 @@ def gen_reply(rng):
          'notice': ob(), 'private': ob(), 'prefixNick': ob(), 'action': rng.choice([None, None, True, False]),
          'error': rng.random() < 0.25, 'stripCtcp': rng.random() < 0.8,
          'conf': {k: rng.random() < 0.5 for k in ('notice', 'private', 'prefixNick', 'errNotice', 'errPrivate', 'noticeWhenPrivate')},
-         'msgid': rng.choice([None, None, None, 'abc', '', 'a b;c', 'x\\', 0]), 'tagcap': rng.random() < 0.7}
+         'msgid': rng.choice([None, None, None, 'abc', '', 'a b;c', 'x\\', 0, 'a\0b']), 'tagcap': rng.random() < 0.7}
     return g
 
 
@@ -859,6 +968,7 @@ def case_take(ctx, B, g, label, mo):
         ircutils.makeLabel = old
         irc.state.capabilities_ack.discard('labeled-response')
         irc.state.capabilities_ack.discard('echo-message')
+    irc.state.capabilities_ack.discard('message-tags')
     if mo is not None:
         mr = wire.r(mo, dec_line) if mo != [] else None
         if mr != ir:
@@ -1013,6 +1123,10 @@ def _surrogate(x):
 
 
 CLASSES = {
+    # C06.F47: the server-supplied msgid copied into +draft/reply holds a NUL (tag escaping has no image for it)
+    'tag_value_nul': lambda inp: inp.get('clause') == 'line' and (
+        (inp.get('op') == 'reply' and isinstance(inp.get('msgid'), str) and '\0' in inp['msgid'])
+        or (inp.get('op') == 'steps' and any(st[0] == 'raw' and st[1].startswith('@') and '\0' in st[1].split(' ', 1)[0] for st in inp['steps']))),
 }
 
 
@@ -1115,6 +1229,15 @@ def replay(ctx, inp):
             live_feed(B, h)
         bad = live_check(B, inp['inv'])
         set_conf(B, {})
+        for c, d in bad:
+            if clause is None or c == clause:
+                return '%s: %s' % (c, d)
+        return None
+    if op == 'steps':
+        heal(B)
+        restore_registry(B)
+        bad = [(c, d) for m in run_steps(B, inp['steps']) for c, d in check_out(m)]
+        restore_registry(B)
         for c, d in bad:
             if clause is None or c == clause:
                 return '%s: %s' % (c, d)
